@@ -131,7 +131,7 @@ func main() {
 		}
 		pid := *property
 		if pid == "" {
-			pid = "C00"
+			pid = "*" // known findings of any property apply
 		}
 		rep := lint.RunRules(prog, pid, []*lint.Rule{r}, findings, "")
 		printReport(rep, true)
